@@ -327,12 +327,16 @@ class CallRule:
                              as a list comprehension + `if errs: return errs[0]`, or as `if any(…): return next(…)`
       apply [a, …, *args]    `return function(a, …, *ARGS)` (or `r = function(…)` … `return r`), inside `try … except`
     where ARGS is the argument list `exprlist or []` (through `cast`, `list(…)`, local aliases of any name).
-    Docstrings, bare annotations and logger calls are skipped.  ANY other statement (a cache lookup, a second
+    `return self.<helper>(…)` is read by inlining the helper method's body once (parameters bound to the caller's
+    canonical values), so extracting the shared tail of function_eval/method_eval into a helper — or inlining it back —
+    does not matter.  Docstrings, bare annotations and logger calls are skipped.  ANY other statement (a cache lookup, a second
     application, a rebinding of `function`, a loop, …) is outside the subset: TranslationError — the check then has no
     bridge and searches for a failing input."""
 
-    def __init__(self, where: str, params: List[str], args_param: str, args_is_list: bool = False):
+    def __init__(self, where: str, params: List[str], args_param: str, args_is_list: bool = False, cls=None):
         self.where = where
+        self.cls = cls                        # the class whose private helpers may be inlined (one level)
+        self.depth = 0
         self.env = {p: p for p in params}
         self.args_param = args_param
         if args_is_list:                      # `*args` of a closure: already the argument list
@@ -391,7 +395,8 @@ class CallRule:
 
     def application(self, node):
         """`function(a, …, *ARGS)` -> ['a', …, '*args'] or None"""
-        if not (isinstance(node, ast.Call) and _is_name(node.func, "function") and not node.keywords):
+        if not (isinstance(node, ast.Call) and isinstance(node.func, ast.Name) and self.env.get(node.func.id) == "#function"
+                and not node.keywords):
             return None
         out = []
         for a in node.args:
@@ -454,11 +459,12 @@ class CallRule:
             # the lookup: `function = <…>.resolve_function(<…>)`
             stmts = [x for x in st.body if not self.is_logging(x)]
             ok = (len(stmts) == 1 and isinstance(stmts[0], ast.Assign) and len(stmts[0].targets) == 1
-                  and _is_name(stmts[0].targets[0], "function") and isinstance(stmts[0].value, ast.Call)
+                  and isinstance(stmts[0].targets[0], ast.Name) and isinstance(stmts[0].value, ast.Call)
                   and isinstance(stmts[0].value.func, ast.Attribute) and stmts[0].value.func.attr == "resolve_function"
                   and len(stmts[0].value.args) == 1)
             if not ok:
                 self.fail(st, "the first try block is not the lookup `function = ….resolve_function(name)`")
+            self.env[stmts[0].targets[0].id] = "#function"
             self.looked_up = True
             self.lookup_caught = _caught(st)
             return
@@ -472,7 +478,7 @@ class CallRule:
 
     def assign(self, st):
         tgt = st.target if isinstance(st, ast.AnnAssign) else (st.targets[0] if len(st.targets) == 1 else None)
-        if not isinstance(tgt, ast.Name) or tgt.id in ("function", "self"):
+        if not isinstance(tgt, ast.Name) or tgt.id == "self" or self.env.get(tgt.id) == "#function":
             self.fail(st)
         v = st.value
         if self.canon(v) == ARGS:
@@ -530,10 +536,51 @@ class CallRule:
         # `else:` / `elif` after a branch that returns is the continuation
         rest[0:0] = list(st.orelse)
 
+    def inline(self, call) -> bool:
+        """`self.<helper>(a, …)`: read the helper's body with its parameters bound to the caller's values"""
+        f = call.func if isinstance(call, ast.Call) else None
+        if not (isinstance(f, ast.Attribute) and _is_name(f.value, "self") and self.cls is not None):
+            return False
+        try:
+            helper = find_func(self.cls.body, f.attr)
+        except TranslationError:
+            return False
+        if self.depth >= 1:
+            self.fail(call, "helper called from a helper")
+        a = helper.args
+        if a.vararg or a.kwarg or a.kwonlyargs or a.posonlyargs or helper.decorator_list:
+            self.fail(call, "helper with a signature outside the subset")
+        params = [x.arg for x in a.args][1:]
+        bound = {}
+        if len(call.args) > len(params) or any(isinstance(x, ast.Starred) for x in call.args):
+            self.fail(call)
+        for prm, arg in zip(params, call.args):
+            bound[prm] = self.canon(arg) or "#opaque"
+        for kw in call.keywords:
+            if kw.arg not in params or kw.arg in bound:
+                self.fail(call)
+            bound[kw.arg] = self.canon(kw.value) or "#opaque"
+        defaults = dict(zip(params[len(params) - len(a.defaults):], a.defaults))
+        for prm in params:
+            if prm not in bound:
+                if prm not in defaults:
+                    self.fail(call, "helper parameter without a value")
+                bound[prm] = "#opaque"
+        saved, self.env = self.env, bound
+        self.depth += 1
+        self.run(helper.body)
+        self.depth -= 1
+        self.env = saved
+        return True
+
     def return_(self, st: ast.Return):
         v = st.value
         if v is None:
             self.fail(st)
+        if self.inline(v):
+            if not self.done:
+                self.fail(st, "the helper does not end in the application")
+            return
         if isinstance(v, ast.Name) and self.env.get(v.id) == "#result":
             self.done = True
             return
@@ -556,7 +603,7 @@ def eval_rule(ev: ast.Module, name: str):
     params = [a.arg for a in fn.args.args if a.arg != "self"]
     if "exprlist" not in params:
         raise TranslationError(f"{name}: no parameter `exprlist`")
-    w = CallRule(name, params, "exprlist")
+    w = CallRule(name, params, "exprlist", cls=find_class(ev, "Evaluator"))
     w.run(fn.body)
     if not (w.looked_up and w.apply_args is not None and w.done):
         raise TranslationError(f"{name}: lookup / application not found")
@@ -568,7 +615,8 @@ def host_function_rule(ev: ast.Module):
     `def checked(*args)` that returns the first erroneous argument, else `function(*args)`"""
     hf = find_func(ev.body, "host_function")
     stmts = [s for s in hf.body if not (isinstance(s, ast.Expr) and isinstance(s.value, ast.Constant))]
-    if not (len(stmts) == 3 and isinstance(stmts[0], ast.Assign) and _is_name(stmts[0].targets[0], "function")
+    if not (len(stmts) == 3 and isinstance(stmts[0], ast.Assign) and len(stmts[0].targets) == 1
+            and isinstance(stmts[0].targets[0], ast.Name)
             and ast.unparse(stmts[0].value) == "activation.resolve_function(name)"
             and isinstance(stmts[1], ast.FunctionDef) and isinstance(stmts[2], ast.Return)
             and _is_name(stmts[2].value, stmts[1].name)):
@@ -579,16 +627,70 @@ def host_function_rule(ev: ast.Module):
         raise TranslationError("host_function: the closure does not take exactly `*args`")
     w = CallRule("host_function", [a.vararg.arg], a.vararg.arg, args_is_list=True)
     w.looked_up = True
+    w.env[stmts[0].targets[0].id] = "#function"
     w.run(inner.body)
     if not (w.apply_args is not None and w.done):
         raise TranslationError("host_function: the closure does not apply `function`")
     return w.checks, w.apply_args
 
 
+class ExprlistRule(CallRule):
+    """the `exprlist` rule of the interpreter: `values = self.visit_children(tree)`, the first CELEvalError among them is the
+    result (generator + `try: return next(errors) except StopIteration: pass`, or any of the forms `CallRule` knows), else
+    `ListType(values)`"""
+
+    def __init__(self):
+        super().__init__("Evaluator.exprlist", [], "<no parameter>")
+        self.looked_up = True
+        self.returns_list = False
+
+    def canon(self, node):
+        node = _strip_cast(node)
+        if ast.unparse(node) == "self.visit_children(tree)":
+            return ARGS
+        return super().canon(node)
+
+    def list_of_values(self, v) -> bool:
+        return (isinstance(v, ast.Call) and ast.unparse(v.func).split(".")[-1] == "ListType" and len(v.args) == 1
+                and not v.keywords and self.canon(v.args[0]) == ARGS)
+
+    def next_of_errors(self, v) -> bool:
+        if not (isinstance(v, ast.Call) and _is_name(v.func, "next") and len(v.args) == 1 and not v.keywords):
+            return False
+        a = v.args[0]
+        return (isinstance(a, ast.Name) and self.env.get(a.id) == "#errgen") or self.err_filter(a, (ast.GeneratorExp,))
+
+    def try_(self, st: ast.Try):
+        ok = (len(st.body) == 1 and isinstance(st.body[0], ast.Return) and st.body[0].value is not None
+              and self.next_of_errors(st.body[0].value) and len(st.handlers) == 1 and not st.orelse and not st.finalbody
+              and exc_names(st.handlers[0].type) == ["StopIteration"] and all(isinstance(x, ast.Pass) for x in st.handlers[0].body))
+        if not ok:
+            self.fail(st)
+        self.check(ELEM_CHECK)
+
+    def assign(self, st):
+        tgt = st.target if isinstance(st, ast.AnnAssign) else (st.targets[0] if len(st.targets) == 1 else None)
+        if isinstance(tgt, ast.Name) and self.err_filter(st.value, (ast.GeneratorExp,)):
+            self.env[tgt.id] = "#errgen"
+        elif isinstance(tgt, ast.Name) and self.list_of_values(st.value):
+            self.env[tgt.id] = "#list"
+        else:
+            super().assign(st)
+
+    def return_(self, st: ast.Return):
+        v = st.value
+        if v is not None and ((isinstance(v, ast.Name) and self.env.get(v.id) == "#list") or self.list_of_values(v)):
+            self.returns_list = True
+            self.done = True
+            return
+        self.fail(st)
+
+
 def exprlist_first_error(ev: ast.Module) -> bool:
     fn = find_func(find_class(ev, "Evaluator").body, "exprlist")
-    src = ast.unparse(fn)
-    return "isinstance(v, CELEvalError)" in src and "return next(errors)" in src
+    w = ExprlistRule()
+    w.run(fn.body)
+    return w.checks == [ELEM_CHECK] and w.returns_list and w.apply_args is None
 
 
 def macro_names(ev: ast.Module, cls: str) -> List[str]:
@@ -611,11 +713,41 @@ def func_name_facts(ev: ast.Module):
         return (isinstance(t, ast.Compare) and len(t.ops) == 1 and isinstance(t.ops[0], ast.Is)
                 and isinstance(t.left, ast.Name) and isinstance(t.comparators[0], ast.Name)
                 and "func" in (t.left.id, t.comparators[0].id) and t.left.id != t.comparators[0].id)
-    guards = [n for n in ast.walk(fn) if isinstance(n, ast.If)
-              and any(isinstance(x, ast.Return) and isinstance(x.value, ast.Name) for x in n.body)]
-    plain_returns = [n for n in ast.walk(fn) if isinstance(n, ast.Return) and isinstance(n.value, ast.Name)]
-    identity = (bool(guards) and all(pure_identity(g.test) for g in guards)
-                and len(plain_returns) == sum(1 for g in guards for x in g.body if isinstance(x, ast.Return)))
+    def pure_non_identity(t) -> bool:
+        return (isinstance(t, ast.Compare) and len(t.ops) == 1 and isinstance(t.ops[0], ast.IsNot)
+                and isinstance(t.left, ast.Name) and isinstance(t.comparators[0], ast.Name)
+                and "func" in (t.left.id, t.comparators[0].id) and t.left.id != t.comparators[0].id)
+
+    def leaves(body) -> bool:
+        """the block never falls through: ends in raise / return of the fallback text / continue"""
+        return bool(body) and isinstance(body[-1], (ast.Raise, ast.Continue)) or (
+            bool(body) and isinstance(body[-1], ast.Return) and not isinstance(body[-1].value, ast.Name))
+
+    # every `return <dotted name variable>` is guarded: it is in the body of `if target is func:` or it follows
+    # `if target is not func: raise …` in the same block
+    verdicts: List[bool] = []
+
+    def scan(block, guarded: bool):
+        g = guarded
+        for st in block:
+            if isinstance(st, ast.Return) and isinstance(st.value, ast.Name):
+                verdicts.append(g)
+            elif isinstance(st, ast.If):
+                scan(st.body, g or pure_identity(st.test))
+                scan(st.orelse, g or pure_non_identity(st.test))
+                if pure_non_identity(st.test) and leaves(st.body) and not st.orelse:
+                    g = True
+            elif isinstance(st, ast.Try):
+                scan(st.body, g)
+                for h in st.handlers:
+                    scan(h.body, guarded)
+                scan(st.orelse, g)
+                scan(st.finalbody, guarded)
+            elif isinstance(st, (ast.For, ast.While, ast.With)):
+                scan(st.body, g)
+                scan(getattr(st, "orelse", []), guarded)
+    scan(fn.body, False)
+    identity = bool(verdicts) and all(verdicts)
     texts = [ast.unparse(n) for n in ast.walk(fn) if isinstance(n, ast.Return) and isinstance(n.value, ast.JoinedStr)]
     call_fallback = any("celpy.evaluation.host_function(activation, " in t for t in texts)
     op_fallback = any("activation.resolve_function(" in t for t in texts)
@@ -632,11 +764,22 @@ def func_name_facts(ev: ast.Module):
 def cond_facts(ev: ast.Module):
     fn = find_func(find_class(ev, "Evaluator").body, "expr")
     lazy = False
+    # the local holding the visited condition (any name), then `if <it>: visit children[1] else: visit children[2]`
+    # (statement or conditional expression); each branch child is visited at exactly one place in the function
+    cond_names = {t.id for st in ast.walk(fn) if isinstance(st, (ast.Assign, ast.AnnAssign)) and st.value is not None
+                  for t in (st.targets if isinstance(st, ast.Assign) else [st.target])
+                  if isinstance(t, ast.Name) and "self.visit(" in ast.unparse(st.value) and "tree.children[0]" in ast.unparse(st.value)}
+
+    def visits(k: int) -> int:
+        return sum(1 for n in ast.walk(fn) if isinstance(n, ast.Call) and ast.unparse(n.func) == "self.visit"
+                   and f"tree.children[{k}]" in ast.unparse(n))
     for node in ast.walk(fn):
-        if isinstance(node, ast.If) and _is_name(node.test, "cond_value"):
-            a, b = ast.unparse(node.body), ast.unparse(node.orelse)
+        if isinstance(node, (ast.If, ast.IfExp)) and isinstance(node.test, ast.Name) and node.test.id in cond_names:
+            body = node.body if isinstance(node.body, list) else [node.body]
+            orelse = node.orelse if isinstance(node.orelse, list) else [node.orelse]
+            a, b = " ".join(ast.unparse(x) for x in body), " ".join(ast.unparse(x) for x in orelse)
             if "tree.children[1]" in a and "tree.children[2]" not in a and "tree.children[2]" in b and "tree.children[1]" not in b:
-                lazy = True
+                lazy = visits(1) == 1 and visits(2) == 1 and "self.visit_children(tree)" not in a + b
     tfn = find_func(find_class(ev, "Phase1Transpiler").body, "expr")
     n_result = 0
     for node in ast.walk(tfn):
